@@ -1562,3 +1562,16 @@ package kapacitor
 //@     invariant forall k forkKey :: before(has(tm.forks, k)) ==> has(tm.forks, k) && tm.forks[k] == before(tm.forks[k])
 //@     invariant forall k forkKey :: has(tm.forks, k) && !before(has(tm.forks, k)) ==> newinloop(tm.forks[k])
 //@     invariant forall k forkKey, n string :: n != taskName && before(has(tm.forks, k)) ==> has(tm.forks[k], n) == before(has(tm.forks[k], n))
+
+// ---------------------------------------------------------------- task.go: the fork keys of a task (C02)
+// "delivered to each ... from() node whose selection matches it": the measurements a task
+// subscribes to are collected by a walk over its pipeline. The callback never aborts the walk
+// (Walk stops at the first error and the caller ignores it: every from() node after that point
+// would lose its subscription), and after it has seen a from() node that node's measurement is in
+// the list.
+//@ func (*Task).Measurements$1
+//@   props C02
+//@   requires typeis(node, *pipeline.FromNode) ==> as(node, *pipeline.FromNode) != nil
+//@   ensures [walk-never-aborted] result == nil
+//@   ensures [from-node-subscribed] typeis(node, *pipeline.FromNode) && as(node, *pipeline.FromNode) != nil ==>
+//@       exists k int :: 0 <= k && k < len(measurements) && measurements[k] == as(node, *pipeline.FromNode).Measurement
